@@ -158,6 +158,17 @@ func main() {
 		Prop: "C06", N: nseq, MinSteps: run.N(12, 15), MaxSteps: run.N(22, 40), Hostile: 10, EarlyUnlock: 40,
 		W: wl.Weights{"create": 5, "next": 10, "genpub": 16, "remark": 1, "chpriv": 2, "chpub": 1, "delete": 2,
 			"export": 4, "import": 5, "lock": 5, "unlock": 6, "sign": 1, "restart": 8},
+		Mutate: func(r *vh.Rng, ops []wl.Op) []wl.Op {
+			if r.Chance(1, 3) {
+				return ops
+			}
+			// issuance must continue correctly across an export / delete / import round trip (unequal branch counts)
+			ins := []wl.Op{{Kind: "genpub"}, {Kind: "next", N: r.Range(1, 4), Internal: true}, {Kind: "genpub"}, {Kind: "export", PC: "cur", K: 0}, {Kind: "delete", PC: "cur", K: 0}, {Kind: "import", PC: "exp", X: 0}, {Kind: "genpub"}, {Kind: "next", N: 1, Internal: r.Bool()}}
+			pos := 1 + r.Intn(len(ops)/2+1)
+			out := append([]wl.Op{}, ops[:pos]...)
+			out = append(out, ins...)
+			return append(out, ops[pos:]...)
+		},
 		Nontrivial: func(e *wl.Env) bool {
 			n := 0
 			for _, id := range e.M.Order {
